@@ -644,6 +644,14 @@ func (c *Client) Start() (addr net.Addr, err error) {
 	}
 	if c.config.GRPCBrokerMultiplex {
 		env = append(env, fmt.Sprintf("%s=true", envMultiplexGRPC))
+	} else {
+		// Always export the negotiation switches: a value inherited from the
+		// host's own environment (a host that is itself a plugin) must not
+		// make the plugin negotiate a mode this client did not ask for.
+		env = append(env, fmt.Sprintf("%s=", envMultiplexGRPC))
+	}
+	if !c.config.AutoMTLS {
+		env = append(env, "PLUGIN_CLIENT_CERT=")
 	}
 
 	cmd := c.config.Cmd
